@@ -130,7 +130,7 @@ def enums(repo):
 # (second and later entries, containers as entry values, nesting three deep, the
 # key context after a comma, items after a nested container has been closed):
 PREFIXES = ['{"":1,', '{"a":[', '{"a":{', '{"a":{"b":1}', '{"a":[1]', '[[', '[[1],', '[{"a":', '[{"a":1}', '[1,2,',
-            '{"a":1,"b":', '{"a":1,"b":2,', '[[[', '{"a":{"b":{', '[1,[2,{"k":', ' [ 1 , ', '{ "a" : 1 , ', '{"a":[{"b":[']
+            '{"a":1,"b":', '{"a":1,"b":2,', '[[[', '{"a":{"b":{', '[1,[2,{"k":', ' [ 1 , ', '{ "a" : 1 , ', '{"a":[{"b":[', '{"a":1,"a":', '{"a":1,"b":2,"a":']
 
 STRUCT = [ord(x) for x in '[]{},:" 1-nulatrefs.0E+\n']
 
